@@ -18,6 +18,14 @@ CHECKS = {
   "runtime monitoring under hostile inputs: child-process crash/hang/allocation monitor around the real decoder, and event-log oracles over a real Receiver on an instrumented bucket",
   "Tens of thousands of hostile blobs per run (random, truncated, bit-flipped, structurally valid trees with hostile length/tag fields at every nesting level, corrupt gzip, large expansions) are written to disk and fed to the real LoadData + full DBI iteration in child processes: panic, process death, non-termination (logical bound on Next() calls + watchdog) or disproportionate allocation is a violation. A real Receiver.Run with downloaders reads buckets where such blobs are the newest/middle/only blob of instances; delivery, ignore-after-first-download and token-gauge oracles run over the recorded bucket and delivery logs.",
   "Trusted: the independent strict decoder used to classify which blobs are certainly decodable; memory bound 64x(compressed+decompressed)+32MiB; bounded progress = 300 List cycles.", "DESIGN.md section 6 C08"),
+ "C12": ("exploration",
+  "runtime monitoring of the real cleaner with a virtual clock: every Delete event in the instrumented bucket's log is judged by an independent safety policy; syncer-level commit-order monitor on a real Sync loop with failing uploads",
+  "Thousands of generated listing histories (clock increments on and around both interval boundaries incl. 0, commit notifications before/at/after snapshot times, foreign and malformed names, List/Delete faults) drive the real cleaner.Worker; each of its Delete calls must satisfy the policy clauses, bounded progress is asserted after fault-free runs. A real Sync loop with cleaning enabled is run against a stale foreign instance while the cleaner is invoked at every yield point and during failing/retried Stores; a receive-only Sync must not mutate the bucket.",
+  "Snapshots of one instance appear in timestamp order (the property's quantifier).", "DESIGN.md section 6 C12"),
+ "C13": ("exploration",
+  "runtime monitoring of real sweeper passes chopped into write-lock slices, with an application committing between slices at a yield point; before/after byte-dump oracle with a clock bracket",
+  "Real sweep passes over LMDBs with thousands of entries, expired markers placed on and around every 1000-record slice boundary, and an application writing between slices (puts, young/expired markers, physical deletes, also on the resume key). Oracle from byte-exact dumps, the writer's log and the clock bracket of the pass; in non-native mode application DBIs with marker-lookalike values must be untouched.",
+  "The exact ts == cutoff nanosecond is not judged; retention tolerance 1 s + float32 rounding.", "DESIGN.md section 6 C13"),
  "C14": ("exploration",
   "runtime monitoring: exhaustive enumeration of extension counts and differential header parsing against an independent reader; write monitor on every value the real merge routine produces",
   "All 65536 extension counts are executed through Header.Bytes/Parse/Skip and compared with an independent reader of the documented layout; differential accept/reject and split on ~10^6 random and near-valid byte strings; PutBasic on dirty buffers; every value written by the real merge routine over the C02 domain (stored values with 1-3 foreign extension blocks, foreign flag bits on incoming entries, padding on/off) is checked for well-formedness and for the id of the writing transaction.",
